@@ -51,6 +51,73 @@ def mutated_module_containers(p):
     return out
 
 
+TRANSPARENT_DECORATORS = {'classmethod', 'staticmethod', 'property', 'abstractmethod', 'abc.abstractmethod', 'overload',
+                          'typing.overload', 'wraps', 'functools.wraps', 'final', 'typing.final', 'override', 'typing.override'}
+
+
+def _decorator_state(p, fi, d):
+    """'transparent' | 'stateful' | 'unknown' for one decorator of a consulted function."""
+    base = d.func if isinstance(d, ast.Call) else d
+    txt = ast.unparse(base)
+    if txt in TRANSPARENT_DECORATORS or txt.endswith('.setter') or txt.endswith('.getter'):
+        return 'transparent'
+    if 'cache' in txt.lower() or 'memo' in txt.lower():
+        return 'transparent'        # reported by the name-based rule below
+    r = p.resolve_name(fi.module, txt.split('.')[0]) if isinstance(base, (ast.Name, ast.Attribute)) else None
+    dec = r if hasattr(r, 'node') and isinstance(getattr(r, 'node', None), ast.FunctionDef) else None
+    if dec is None:
+        return 'unknown'
+    inner = [n for n in ast.walk(dec.node) if isinstance(n, (ast.FunctionDef, ast.Lambda)) and n is not dec.node]
+    if not inner:
+        return 'unknown'
+    for w in inner:
+        params = {a.arg for a in w.args.args} | ({w.args.vararg.arg} if w.args.vararg else set()) | ({w.args.kwarg.arg} if w.args.kwarg else set())
+        local = {n.id for n in ast.walk(w) if isinstance(n, ast.Name) and isinstance(n.ctx, ast.Store)}
+        for n in ast.walk(w):
+            # stores into something that is not a fresh local: attributes / items of parameters or of closure variables
+            if isinstance(n, (ast.Attribute, ast.Subscript)) and isinstance(n.ctx, (ast.Store, ast.Del)):
+                return 'stateful'
+            if isinstance(n, ast.Call) and isinstance(n.func, ast.Attribute) and n.func.attr in MUTATORS:
+                root = n.func.value
+                while isinstance(root, (ast.Attribute, ast.Subscript)):
+                    root = root.value
+                if not (isinstance(root, ast.Name) and root.id in local and root.id not in params):
+                    return 'stateful'
+            if isinstance(n, (ast.Global, ast.Nonlocal)):
+                return 'stateful'
+    # stateless: transparent only when the wrapper does nothing but forward the call
+    fparams = [a.arg for a in dec.node.args.args]
+    for w in inner:
+        if isinstance(w, ast.Lambda):
+            body = [ast.Return(value=w.body)]
+        else:
+            body = [s_ for s_ in w.body if not (isinstance(s_, ast.Expr) and isinstance(s_.value, ast.Constant))]
+        if len(body) != 1 or not isinstance(body[0], ast.Return) or not isinstance(body[0].value, ast.Call):
+            return 'unknown'
+        call = body[0].value
+        if not (isinstance(call.func, ast.Name) and call.func.id in fparams):
+            return 'unknown'
+        want = [a.arg for a in w.args.args]
+        got = []
+        for a in call.args:
+            if isinstance(a, ast.Name):
+                got.append(a.id)
+            elif isinstance(a, ast.Starred) and isinstance(a.value, ast.Name):
+                got.append('*' + a.value.id)
+            else:
+                return 'unknown'
+        if w.args.vararg:
+            want.append('*' + w.args.vararg.arg)
+        if got != want:
+            return 'unknown'
+        kws = [(k.arg, ast.unparse(k.value)) for k in call.keywords]
+        if w.args.kwarg and kws != [(None, w.args.kwarg.arg)]:
+            return 'unknown'
+        if not w.args.kwarg and kws:
+            return 'unknown'
+    return 'transparent'
+
+
 def check_purity(ctx, pid, consulted):
     p = ctx.p
     with ctx.obligation('%s.PURE' % pid, 'functions consulted by the analysis', None, 'btc_hd_wallet/') as ob:
@@ -65,6 +132,16 @@ def check_purity(ctx, pid, consulted):
             where = fi.where
             for d in fi.node.decorator_list:
                 txt = ast.unparse(d)
+                verdict = _decorator_state(p, fi, d)
+                if verdict == 'stateful':
+                    ob.require(False, '%s is wrapped by @%s, whose wrapper keeps state between calls (it stores into / reads from an '
+                               'object that outlives the call): the result for given arguments can be what an earlier call stored'
+                               % (key, txt), '%s:%d' % (fi.module.relpath, d.lineno))
+                    continue
+                if verdict == 'unknown':
+                    ob.undecided('%s is wrapped by @%s, a decorator this analysis cannot see through: the analysed body is not what '
+                                 'callers get' % (key, txt), '%s:%d' % (fi.module.relpath, d.lineno))
+                    continue
                 if 'cache' in txt.lower() or 'memo' in txt.lower():
                     ob.require(False, '%s is memoised (@%s): its result for given arguments is whatever an earlier call stored - '
                                'a fresh/independent result is no longer computed, objects are shared between callers' % (key, txt),
